@@ -275,6 +275,55 @@ def results(sl):
                 observe("field %s survives storage" % k, _same(jsonish(v), getattr(res2, k)))
 
 
+VALUES = [0, 0.0, 1, 0.30000000000000004, 1e-07, 12345678.9, 2 ** 40]
+
+
+def file_race_store(sl):
+    """the race file as written by FileRaceStore.store_race and read back by find_by_race_id / list (what compare and list races do),
+    on a real temporary directory with the real json module; values from a finite family with awkward floats and zeros"""
+    import shutil
+    import tempfile
+
+    st = _store()
+    tr, ch = _challenge()
+    n = concrete(fresh_int("normal_samples", 0, 2))
+    vals = [VALUES[concrete(fresh_int("sample_value%d" % i, 0, len(VALUES) - 1))] for i in range(n)]
+    for i, v in enumerate(vals):
+        for metric in ("latency", "service_time", "processing_time"):
+            st.docs.append(_doc(metric, "t1", "normal", v, i != 0 or not sl["fail_first"], "bulk", rel=i))
+        st.docs.append(_doc("throughput", "t1", "normal", v, True, "bulk", unit="docs/s"))
+    g = VALUES[concrete(fresh_int("global_metric_value", 0, len(VALUES) - 1))]
+    for name, attr in GLOBAL_SUMS:
+        st.docs.append({"name": name, "value": g, "unit": "x", "sample-type": "normal", "meta": {}, "relative-time": 0, "per-shard": [g]})
+    res = metrics.GlobalStatsCalculator(st, tr, ch)()
+    d = tempfile.mkdtemp(prefix="verif-c08-")
+    try:
+        cfg = StubCfg({("system", "env.name"): "unittest", ("node", "root.dir"): d, ("system", "race.id"): "race-1", ("system", "list.max_results"): 10,
+                       ("system", "admin.track"): None, ("system", "list.races.benchmark_name"): None, ("system", "list.from_date"): None,
+                       ("system", "list.to_date"): None})
+        race = metrics.Race("2.12", "rev", "env", "race-1", datetime.datetime(2024, 1, 1, 12, 0, 0), "from-sources", {"name": "n"}, tr, {"p": 1}, ch, ["defaults"],
+                            {}, {}, results=res)
+        store = metrics.FileRaceStore(cfg)
+        store.store_race(race)
+        back = store.find_by_race_id("race-1")
+        listed = store.list()
+    finally:
+        shutil.rmtree(d, ignore_errors=True)
+    core.trace("n", n)
+    core.note("values", (vals, g))
+    res2 = metrics.GlobalStats(back.results)
+    observe("the stored race is found and listed", len(listed) == 1 and listed[0].race_id == "race-1" and back.race_id == "race-1")
+    observe("race attributes survive the file", back.race_timestamp == race.race_timestamp and back.track_name == "tr" and back.challenge_name == "c"
+            and back.user_tags == {"name": "n"} and back.track_params == {"p": 1} and back.rally_version == "2.12")
+    observe("tasks survive the file", res2.tasks() == res.tasks())
+    for t in res.tasks():
+        observe("per-task metrics of %s survive the file unchanged (exact floats, zeros stay zeros)" % t, res2.metrics(t) == res.metrics(t))
+    for name, attr in GLOBAL_SUMS:
+        observe("global metric %s survives the file" % attr, getattr(res2, attr) == getattr(res, attr) and getattr(res2, attr) is not None)
+    observe("flat list (as written to the Elasticsearch results store) is the same before and after", res2.as_flat_list() == res.as_flat_list())
+    observe("the listed race carries the same results", metrics.GlobalStats(listed[0].results).as_flat_list() == res.as_flat_list())
+
+
 def _documented_percentiles(n):
     """docs/summary_report.rst: percentiles shown depend on the number of samples (50 from 2, 90 from 10, 99 from 100, ...)"""
     out = []
@@ -337,6 +386,11 @@ HARNESSES = [
             reads=READS, stubs=STUBS, assumptions=ASSUME, real_valued=True,
             bounds={"records": "<=3 quick / <=4 thorough, attributes from 2 names x 2 tasks x 2 sample types (x 2 operation types), success flag, symbolic real value"},
             doc="filters, min/mean/median/max/sum/count, error rate"),
+    Harness("file_race_store", file_race_store, "bounded-exhaustive", lambda tier: [{"fail_first": False}, {"fail_first": True}],
+            reads=READS + [metrics.FileRaceStore.store_race, metrics.FileRaceStore.find_by_race_id, metrics.FileRaceStore.list, metrics.FileRaceStore._to_races],
+            assumptions=["runs on a real temporary directory with the real json module (finite family of values: %s)" % VALUES],
+            bounds={"normal samples": "0..2 with values of the family", "global metrics": "one value of the family"},
+            doc="race.json written and read back through FileRaceStore reproduces per-task and global metrics"),
     Harness("results", results, "symbolic", _result_slices, reads=READS, stubs=STUBS, assumptions=ASSUME, real_valued=True,
             bounds={"samples per task": "warm-up/normal counts (0,1) (1,0) (1,1) (1,2) (2,3) (4,8) (1,9) (0,10) (3,11); thorough adds (5,99) (0,100)",
                     "values": "symbolic reals (strictly ordered when more than 3 per list)", "global metrics": "4 sums with symbolic values >= 0"},
